@@ -225,7 +225,54 @@ def run_C09(run):
                       CHECKER)
 
 
-TABLE = {"C09": run_C09, "C04": run_C04, "C02": run_C02, "C10": run_C10, "C08": run_C08, "C17": run_C17, "C12": run_C12}
+# ------------------------------------------------------------------------------------------ C13
+def run_C13(run):
+    cfgs = [("Gen_C13", []), ("Gen_C13_WXYZ", ["-DGLM_FORCE_QUAT_DATA_WXYZ"]), ("Gen_C13_XYZW", ["-DGLM_FORCE_QUAT_DATA_XYZW"])]
+    stats = par([lambda m=m, fl=fl: run.build_trace("tr_C13", m, fl) for m, fl in cfgs])
+    trace_cov(run, stats)
+    gens = [os.path.join(run.dir, m + ".v") for m, _ in cfgs if os.path.exists(os.path.join(run.dir, m + ".v"))]
+    run.prove(gens, [], ["C13/P_C13.v", "C13/P_C13_cfg.v"], "C13/Properties_C13.v")
+    fails = oracle_sweep(run, "C13", [("default", []), ("wxyz", ["-DGLM_FORCE_QUAT_DATA_WXYZ"]), ("xyzw", ["-DGLM_FORCE_QUAT_DATA_XYZW"])], run.tier)
+    run.fails = run.triage(fails)
+    run.assumptions = ["real-number semantics: acos/sin/cos are the real functions; the 'no NaN' statement is the real-valued guard (acos argument in [0,1-eps], sin(theta) <> 0) plus the assumption that libm's acos/sin return non-NaN values on in-range arguments",
+                       "float-level effects (a dot product rounding above 1) are not visible in the real model: they are exercised by oracle_C13 (identical / nearly parallel / nearly antipodal pairs) - testing",
+                       "slerp(x,y,t) = +-slerp(y,x,1-t), shortMix/fastMix/squad/intermediate and dual-quaternion lerp: traced, covered by the storage-macro identity theorem, semantic statements by the oracle only"]
+    return run.finish(TRUST_COMMON + ["oracle_C13.cpp: long-double reference slerp (violation search)"],
+                      "theorems: all quaternion components and t symbolic; oracle: six classes of angular separation (generic, 1e-9..1e-1 rad, identical, pi-1e-9.., around the linear-fallback threshold, orthogonal) x both hemispheres x t in [-2,3] x spins -3..3 x float/double x 3 storage configurations",
+                      CHECKER)
+
+
+# ------------------------------------------------------------------------------------------ C01
+def run_C01(run):
+    stats, mods, bins = gen_and_trace(run, "gen_C01.py", [run.tier], trials=6)
+    trace_cov(run, stats)
+    gens = [os.path.join(run.dir, m + ".v") for m in mods]
+    res = run.coq_parallel(gens)
+    for f, (ok, out, err, dt) in res.items():
+        if not ok: run.broken.append({"what": "generated model %s is not accepted by Coq" % os.path.basename(f), "detail": err[-1500:]})
+    allf = write_all_module(run, "Gen_C01", mods)
+    ok = run.prove([allf], [], ["C01/P_C01.v"], "C01/Properties_C01.v")
+    if not ok:
+        src = open(os.path.join(core.VERIF, "coq", "props", "C01", "P_C01.v")).read()
+        pre = src.split("Lemma every_vector_overload")[0]
+        mid = src.split("(* matrix versions")[1].split("Lemma matrix_functions_act")[0]
+        out = run.coq_eval("Fail_C01", pre + "Eval vm_compute in failing.\n(* matrix versions" + mid + "Eval vm_compute in failing_m.\n")
+        names = re.findall(r'"(cwm?_[A-Za-z0-9_]+)"', out)
+        run.cov["model_level_failing_entries"] = names[:60]
+        if names:
+            run.broken.append({"what": "vector overloads whose component expression is not the scalar overload's: " + ", ".join(names[:20]), "detail": "entries of the regenerated catalogue failing lift_ok / cwm_ok"})
+    fails = oracle_sweep(run, "C01", [("float", ["-DORC_PART_FLOAT"]), ("double", ["-DORC_PART_DOUBLE"]), ("int", [])], run.tier)
+    run.fails = run.triage(fails)
+    run.assumptions = ["float (f32) and int/uint (32-bit) element types are traced; 8/16/64-bit integers, double and the mediump/lowp qualifiers are exercised by oracle_C01 only (testing): a tracing scalar does not fit in 8/16 bits",
+                       "lowp inversesqrt (a specialisation on the concrete type float) is outside the trace: its 2^-8 relative error is tested by the oracle, not proved",
+                       "3-operand fmin/fmax are exempt from the tree identity (different NaN cascades in scalar and vector overloads): oracle only",
+                       "functions returning concrete int vectors (bitCount, findLSB, findMSB, iround, uround), frexp/ldexp/modf and the bit casts are not traceable: covered by C05/C11/C18 hand models"]
+    return run.finish(TRUST_COMMON + ["gen_C01.py: the table of component-wise functions, operators and overload shapes", "oracle_C01.cpp (violation search; sole check of the items listed under assumptions)"],
+                      "finite enumeration of (function, overload shape, length 1-4, kind); component values symbolic (all values, every special value). Oracle: special-value lattice + random values, 10 element types, 3 qualifiers",
+                      CHECKER)
+
+
+TABLE = {"C01": run_C01, "C13": run_C13, "C09": run_C09, "C04": run_C04, "C02": run_C02, "C10": run_C10, "C08": run_C08, "C17": run_C17, "C12": run_C12}
 
 
 def replay(pid, path):
